@@ -280,11 +280,16 @@ def value_of(val, env, tdm_pnames=()):
     if isinstance(val, A.ListVal):
         return RList([value_of(i, env, tdm_pnames) for i in val.items])
     if isinstance(val, A.Flat):
-        # bare variable naming a tdm p-array: passed by name
-        if len(val.operands) == 1 and not val.operands[0].signs and isinstance(val.operands[0].prim, A.Var):
-            nm = val.operands[0].prim.name
-            if nm in tdm_pnames:
-                return RPName(nm)
+        # a variable naming a tdm p-array (also written (p0), ((p0)) or +p0): passed by name
+        inner = val
+        while isinstance(inner, A.Flat) and len(inner.operands) == 1 and set(inner.operands[0].signs) <= {"+"}:
+            prim = inner.operands[0].prim
+            if isinstance(prim, A.Paren):
+                inner = prim.e
+                continue
+            if isinstance(prim, A.Var) and prim.name in tdm_pnames:
+                return RPName(prim.name)
+            break
         s = free_syms(val, env)
         if s:
             return RSym(val, dict(env), frozenset(s))
